@@ -229,6 +229,18 @@ pub fn deps_part(report: &mut Report, batch: &mut Batch, rng: &mut Rng, n: usize
         report.fail("oracle", "type-side-in-code-only-analysis", format!("{:?}", text), replay.clone());
       }
     }
+    // every `/// <reference path>` of the module information is a dependency of the module (a types
+    // reference may be ignored when the module already has a types dependency; a path reference never is)
+    if kind.include_types() {
+      for r in &info.ts_references {
+        if let TypeScriptReference::Path(sp) = r {
+          let ok = js.dependencies.get(&sp.text).map(|d| d.imports.iter().any(|i| matches!(i.kind, deno_graph::ImportKind::TsReferencePath))).unwrap_or(false);
+          if !ok {
+            report.fail("oracle", "written-import-not-recorded-once", format!("the path reference {:?} of the module information is not a dependency of the module", sp.text), replay.clone());
+          }
+        }
+      }
+    }
     // every JSDoc import written is recorded once, and a position inside it is found by the lookup
     if kind.include_types() {
       let texts_written: BTreeSet<&String> = info.jsdoc_imports.iter().map(|j| &j.specifier.text).collect();
